@@ -214,9 +214,9 @@ func (t *TCCServiceProxy) getOrCreateBusinessActionContext(params interface{}) *
 	for i := 0; i < n; i++ {
 		sf := typ.Field(i)
 		if sf.Type == rm.TypBusinessContextInterface {
-			v := val.Field(i).Interface()
-			if v != nil {
-				return v.(*tm.BusinessActionContext)
+			// a nil *BusinessActionContext field is "not set": fall through and create a new one
+			if !val.Field(i).IsNil() {
+				return val.Field(i).Interface().(*tm.BusinessActionContext)
 			}
 		}
 		if sf.Type == reflect.TypeOf(tm.BusinessActionContext{}) && val.Field(i).CanInterface() {
